@@ -110,6 +110,9 @@ class ModulePrinter(ExpressionPrinter):
         # Yield nodes that are the sole node on the right hand side of an assignment do not need parens
         if isinstance(node.value, (ast.Yield, ast.YieldFrom)):
             self._yield_expr(node.value)
+        elif sys.version_info < (3, 9) and isinstance(node.value, ast.Tuple) and [n for n in node.value.elts if isinstance(n, ast.Starred)]:
+            # An unparenthesized starred tuple on the right of an augmented assignment is only allowed since Python 3.9
+            self._expression(node.value)
         else:
             self._testlist(node.value)
 
